@@ -1,6 +1,251 @@
-(** C14 - property theorems (placeholder while the development is being built). *)
-From Coq Require Import NArith.
-From CB Require Import Contract.HostRun.
-Theorem c14_stub : (1 + 1 = 2)%N.
-Proof. reflexivity. Qed.
-Print Assumptions c14_stub.
+(** C14 - Contract host functions are memory-safe, total and enforce protocol limits.
+    Property theorems only: each is closed by [exact] and followed by [Print Assumptions].
+    Model: Contract/HostBase.v, HostV0.v, HostV1.v, HostRun.v; costs and limits: Gen/HostCosts.v
+    (generated from constants.rs on every run). *)
+From Coq Require Import NArith List Bool.
+From CB Require Import Gen.HostCosts Contract.HostBase Contract.HostBaseProofs Contract.HostV0 Contract.HostV0Proofs
+  Contract.HostV1 Contract.HostV1Proofs Contract.HostLimitsProofs Contract.HostChargeProofs
+  Contract.HostHistoryProofs Contract.HostCosts Contract.HostRun.
+Import ListNotations.
+Local Open Scope N_scope.
+
+(** ** Totality / memory safety: no host call ever reaches [Fault] (an out-of-bounds slice of memory
+    or of a host-side buffer, i.e. a Rust panic), for ALL argument values and all memories. *)
+Theorem host_total_v0 : forall X f args (s : st (host X)),
+  lenN (h_state (hs s)) <= 16384 -> snd (call_v0 f args s) <> Fault.
+Proof. exact (@call_v0_safe). Qed.
+Print Assumptions host_total_v0.
+
+Theorem host_total_v1 : forall f args (s : st (host v1ext)),
+  v1_ok s -> snd (call_v1 f args s) <> Fault.
+Proof. exact call_v1_safe. Qed.
+Print Assumptions host_total_v1.
+
+(** ... and this holds after any history of host calls, with arbitrary memory contents and energy
+    before every call and arbitrary responses to interrupts. *)
+Theorem host_total_history_v0 : forall X cs (s : st (host X)) f a m e,
+  lenN (h_state (hs s)) <= 16384 -> snd (call_v0 f a (perturb (run0 cs s) m e)) <> Fault.
+Proof. exact (@v0_history_total). Qed.
+Print Assumptions host_total_history_v0.
+
+Theorem host_total_history_v1 : forall os (s : st (host v1ext)) f a m e,
+  v1_ok s -> logs_ok s -> snd (call_v1 f a (perturb (run1 os s) m e)) <> Fault.
+Proof. exact v1_history_total. Qed.
+Print Assumptions host_total_history_v1.
+
+(** ** Legacy state never exceeds 16 KiB *)
+Theorem v0_state_le_16k : forall X f args (s : st (host X)),
+  lenN (h_state (hs s)) <= 16384 -> lenN (h_state (hs (fst (call_v0 f args s)))) <= 16384.
+Proof. exact (@call_v0_state_ok). Qed.
+Print Assumptions v0_state_le_16k.
+
+Theorem v0_state_le_16k_history : forall X cs (s : st (host X)),
+  state_ok s -> logs_ok s -> state_ok (run0 cs s) /\ logs_ok (run0 cs s).
+Proof. exact (@v0_history_inv). Qed.
+Print Assumptions v0_state_le_16k_history.
+
+Theorem write_state_result_in_range : forall X a b c (s s' : st (host X)) r,
+  state_ok s -> write_state a b c s = (s', Ok r) -> exists n, r = Some n /\ n <= b /\ c + n <= 16384.
+Proof. exact (@write_state_result). Qed.
+Print Assumptions write_state_result_in_range.
+
+(** ** Logs: each at most 512 bytes; at most 64 per execution segment while limits are on (P4) *)
+Theorem logs_bounded_v0 : forall X f args (s : st (host X)),
+  logs_ok s -> logs_ok (fst (call_v0 f args s)).
+Proof. exact (@call_v0_logs_ok). Qed.
+Print Assumptions logs_bounded_v0.
+
+Theorem logs_bounded_v1 : forall f args (s : st (host v1ext)),
+  logs_ok s -> logs_ok (fst (call_v1 f args s)).
+Proof. exact call_v1_logs_ok. Qed.
+Print Assumptions logs_bounded_v1.
+
+(** ** Return value (16 KiB while limits are on), entry size (2^30) limits are invariant (v1) *)
+Theorem return_value_and_entry_limits : forall os (s : st (host v1ext)),
+  v1_ok s -> logs_ok s -> v1_ok (run1 os s) /\ logs_ok (run1 os s).
+Proof. exact v1_history_inv. Qed.
+Print Assumptions return_value_and_entry_limits.
+
+(** ** Parameter, key and resize limits *)
+Theorem send_parameter_limit : forall X a b c d e f g (s s' : st (host X)) r,
+  send a b c d e f g s = (s', Ok r) ->
+  exists acts name param, h_actions (hs s') = acts ++ [ASend a b name e param] /\ lenN param <= h_maxparam (hs s).
+Proof. exact (@send_param_limit). Qed.
+Print Assumptions send_parameter_limit.
+
+Theorem invoke_call_parameter_limit : forall data maxp (s s' : st (host v1ext)) i,
+  parse_call_args data maxp s = (s', Ok i) -> le_val (firstnN 2 (skipnN 16 data)) <= maxp.
+Proof. exact parse_call_args_param_limit. Qed.
+Print Assumptions invoke_call_parameter_limit.
+
+Theorem key_size_limit : forall a b (s s' : st (host v1ext)) r,
+  state_create_entry a b s = (s', Ok r) -> b <= 1073741824.
+Proof. exact create_entry_key_limit. Qed.
+Print Assumptions key_size_limit.
+
+Theorem entry_resize_size_limit : forall a b (s s' : st (host v1ext)),
+  state_entry_resize a b s = (s', Ok (Some 1)) -> b <= 1073741824.
+Proof. exact entry_resize_limit. Qed.
+Print Assumptions entry_resize_size_limit.
+
+(** ** Call depth: [n] nested calls succeed iff [n] does not exceed the remaining activation frames *)
+Theorem call_depth_limit : forall X n (s : st (host X)),
+  (N.of_nat n <= h_frames (hs s) ->
+     exists s', nested_calls n s = (s', Ok tt) /\ h_frames (hs s') = h_frames (hs s))
+  /\ (h_frames (hs s) < N.of_nat n -> exists s', nested_calls n s = (s', Trap)).
+Proof. exact (@nested_calls_spec). Qed.
+Print Assumptions call_depth_limit.
+
+(** ** Charge before work: in every host call, a tick of at least the scheduled cost (Gen/HostCosts)
+    precedes every copy/allocation whose size depends on a length argument *)
+Theorem charge_before_work_v0 : forall X f args (s : st (host X)), evs s = [] -> state_ok s ->
+  cbw (sched0 f args (hs s)) (evs (fst (call_v0 f args s))) = true.
+Proof. exact (@call_v0_cbw). Qed.
+Print Assumptions charge_before_work_v0.
+
+Theorem charge_before_work_v1 : forall f args (s : st (host v1ext)), evs s = [] ->
+  cbw (sched1 f args) (evs (fst (call_v1 f args s))) = true.
+Proof. exact call_v1_cbw. Qed.
+Print Assumptions charge_before_work_v1.
+
+Theorem growth_charged_resize_state : forall X new_size (s : st (host X)), evs s = [] -> state_ok s ->
+  alloc_paid additional_state_size_cost (evs (fst (resize_state new_size s))) = true.
+Proof. exact (@resize_state_alloc_paid). Qed.
+Print Assumptions growth_charged_resize_state.
+
+Theorem growth_charged_write_state : forall X start length offset (s : st (host X)), evs s = [] -> state_ok s ->
+  alloc_paid (fun n => n) (evs (fst (write_state start length offset s))) = true.
+Proof. exact (@write_state_alloc_paid). Qed.
+Print Assumptions growth_charged_write_state.
+
+Theorem growth_charged_return_value : forall a b c (s : st (host v1ext)), evs s = [] ->
+  alloc_paid additional_output_size_cost (evs (fst (write_return_value a b c s))) = true.
+Proof. exact write_return_value_alloc_paid. Qed.
+Print Assumptions growth_charged_return_value.
+
+Theorem growth_charged_entry_write : forall a b c d (s : st (host v1ext)), evs s = [] ->
+  alloc_paid additional_entry_size_cost (evs (fst (state_entry_write a b c d s))) = true.
+Proof. exact entry_write_alloc_paid. Qed.
+Print Assumptions growth_charged_entry_write.
+
+Theorem growth_charged_entry_resize : forall a b (s : st (host v1ext)), evs s = [] ->
+  alloc_paid additional_entry_size_cost (evs (fst (state_entry_resize a b s))) = true.
+Proof. exact entry_resize_alloc_paid. Qed.
+Print Assumptions growth_charged_entry_resize.
+
+(** ** Result encodings *)
+Theorem result_encoding_log_event : forall X a b (s s' : st (host X)) r, log_event a b s = (s', Ok r) ->
+  r = Some 0 \/ r = Some 1 \/ (r = Some 4294967295 /\ 512 < b).
+Proof. exact (@log_event_codes). Qed.
+Print Assumptions result_encoding_log_event.
+
+Theorem result_encoding_resize_state : forall X n (s s' : st (host X)) r, resize_state n s = (s', Ok r) ->
+  (r = Some 0 /\ 16384 < n /\ h_state (hs s') = h_state (hs s)) \/ (r = Some 1 /\ n <= 16384 /\ lenN (h_state (hs s')) = n).
+Proof. exact (@resize_state_codes). Qed.
+Print Assumptions result_encoding_resize_state.
+
+Theorem result_encoding_handles : forall gen idx, gen < W32 -> idx < W32 ->
+  split_handle (handle gen idx) = (gen, idx) /\ handle gen idx < W64.
+Proof. intros gen idx Hg Hi. exact (conj (handle_roundtrip gen idx Hg Hi) (handle_fits_u64 gen idx Hg Hi)). Qed.
+Print Assumptions result_encoding_handles.
+
+Theorem result_encoding_none_err : forall gen idx, gen < 2147483648 -> idx < W32 ->
+  handle gen idx <> U64MAX /\ handle gen idx <> NEW_ERR.
+Proof. exact none_is_not_a_handle. Qed.
+Print Assumptions result_encoding_none_err.
+
+Theorem result_encoding_invoke_failure : forall n u (s s' : st (host v1ext)) v,
+  resume (RespFail n u) s = (s', Ok v) -> v = n * 4294967296.
+Proof. exact resume_fail_code. Qed.
+Print Assumptions result_encoding_invoke_failure.
+
+Theorem result_encoding_invoke_success : forall len tag, len <= MAX_PARAMS -> (tag = 0 \/ tag = 8388608) ->
+  let v := (len + tag) * 1099511627776 in
+  v < W64 /\ v mod 1099511627776 = 0 /\ (v / 1099511627776) mod 8388608 = len /\ (v / 1099511627776) / 8388608 = tag / 8388608.
+Proof. exact resume_ok_layout. Qed.
+Print Assumptions result_encoding_invoke_success.
+
+(** ** The generated cost functions and limits *)
+Theorem limits_are_the_documented_ones :
+  MAX_CONTRACT_STATE = 16384 /\ MAX_LOG_SIZE = 512 /\ MAX_NUM_LOGS = 64 /\ MAX_ACTIVATION_FRAMES = 1024
+  /\ MAX_ENTRY_SIZE = 1073741824 /\ MAX_KEY_SIZE = 1073741824 /\ MAX_ENTRY_SIZE < 4294967295 /\ MAX_KEY_SIZE < 4294967295.
+Proof. exact limits_documented. Qed.
+Print Assumptions limits_are_the_documented_ones.
+
+Theorem protocol_parameter_sets :
+  rparams_of 4 = mkRP 1024 true false false false /\ rparams_of 5 = mkRP 65535 false true false false
+  /\ rparams_of 6 = mkRP 65535 false true true false /\ rparams_of 7 = mkRP 65535 false true true true.
+Proof. exact (conj eq_refl (conj eq_refl (conj eq_refl eq_refl))). Qed.
+Print Assumptions protocol_parameter_sets.
+
+Theorem cost_no_overflow :
+  fits64 copy_from_host_cost /\ fits64 copy_to_host_cost /\ fits64 copy_parameter_cost /\ fits64 log_event_cost
+  /\ fits64 action_send_cost /\ fits64 traverse_key_cost /\ fits64 lookup_entry_cost /\ fits64 delete_prefix_find_cost
+  /\ fits64 new_iterator_cost /\ fits64 delete_iterator_cost /\ fits64 delete_entry_cost /\ fits64 read_entry_cost
+  /\ fits64 write_entry_cost /\ fits64 write_output_cost /\ fits64 verify_ed25519_cost /\ fits64 hash_sha2_256_cost
+  /\ fits64 hash_sha3_256_cost /\ fits64 hash_keccak_256_cost.
+Proof. exact costs_no_overflow. Qed.
+Print Assumptions cost_no_overflow.
+
+Theorem cost_no_overflow_create_entry : forall x, x < W32c ->
+  create_entry_cost x <= 18446744073709551615 /\ x * x < W64c.
+Proof. intros x Hx. exact (conj (create_entry_cost_no_overflow x Hx) (create_entry_square_fits x Hx)). Qed.
+Print Assumptions cost_no_overflow_create_entry.
+
+Theorem cost_monotone :
+  mono copy_from_host_cost /\ mono copy_to_host_cost /\ mono copy_parameter_cost /\ mono additional_state_size_cost
+  /\ mono log_event_cost /\ mono action_send_cost /\ mono traverse_key_cost /\ mono lookup_entry_cost
+  /\ mono delete_prefix_find_cost /\ mono new_iterator_cost /\ mono delete_iterator_cost /\ mono delete_entry_cost
+  /\ mono additional_entry_size_cost /\ mono read_entry_cost /\ mono write_entry_cost /\ mono write_output_cost
+  /\ mono additional_output_size_cost /\ mono verify_ed25519_cost /\ mono hash_sha2_256_cost
+  /\ mono hash_sha3_256_cost /\ mono hash_keccak_256_cost.
+Proof. exact costs_monotone. Qed.
+Print Assumptions cost_monotone.
+
+Theorem cost_at_least_linear : forall x, x < W32c ->
+  x <= copy_from_host_cost x /\ x <= copy_to_host_cost x /\ x <= copy_parameter_cost x /\ 1000 * x <= log_event_cost x
+  /\ 1000 * x <= action_send_cost x /\ x <= write_output_cost x /\ 100 * x <= new_iterator_cost x
+  /\ 5 * x <= hash_sha3_256_cost x /\ 5 * x <= hash_keccak_256_cost x /\ 7 * x <= hash_sha2_256_cost x
+  /\ 100 * x <= verify_ed25519_cost x /\ 100 * x <= additional_entry_size_cost x /\ 30 * x <= additional_output_size_cost x
+  /\ 16 * x <= lookup_entry_cost x /\ 16 * x <= delete_entry_cost x /\ 100 * x <= create_entry_cost x.
+Proof. exact costs_lower_bounds. Qed.
+Print Assumptions cost_at_least_linear.
+
+(** ** Non-vacuity and necessity of the hypotheses *)
+Definition demo_script : script :=
+  mkScript false false 4 1 [] [] true (runN 16000 1 1) [] [(1024, runN 256 3 7)]
+           [mkCall (F0 V0write_state) [AC 1024; AC 512; AC 16000] 4;
+            mkCall (F0 V0resize_state) [AC 16385] 4;
+            mkCall (F0 V0log_event) [AC 1024; AC 512] 4;
+            mkCall (F0 V0accept) [] 4] 0 [] [].
+
+(** a state satisfying the invariants, on which write_state at the 16 KiB boundary succeeds and
+    the whole script ends in success with the state at exactly 16 KiB *)
+Example invariants_nonvacuous :
+  state_ok (init_st demo_script 1000000) /\ logs_ok (init_st demo_script 1000000) /\ v1_ok (init_st demo_script 1000000)
+  /\ o_class (run_script demo_script 1000000) = 0
+  /\ lenN (o_state (run_script demo_script 1000000)) = 16384.
+Proof.
+  split; [vm_compute; discriminate|]. split; [split; [intros _; vm_compute; discriminate | constructor]|].
+  split; [split; [intros _; vm_compute; discriminate | split; [constructor | vm_compute; reflexivity]]|].
+  split; vm_compute; reflexivity.
+Qed.
+Print Assumptions invariants_nonvacuous.
+
+(** the 16 KiB hypothesis of [host_total_v0] is necessary: handed a larger state by its caller,
+    write_state indexes `state[offset..end]` with [end < offset] (a Rust panic; replayed by the check) *)
+Example write_state_faults_outside_invariant :
+  let sc := mkScript false false 4 1 [] [] true (runN 20000 3 3) [] [(1024, runN 256 3 7)]
+                     [mkCall (F0 V0write_state) [AC 1024; AC 4; AC 17000] 4] 0 [] [] in
+  o_class (run_script sc 1000000) = 5.
+Proof. vm_compute. reflexivity. Qed.
+Print Assumptions write_state_faults_outside_invariant.
+
+(** observation O1: `simple_transfer` charges BASE_ACTION_COST; the constant
+    BASE_SIMPLE_TRANSFER_ACTION_COST of the schedule file is not applied by any host function *)
+Example simple_transfer_charges_base_action_cost :
+  let sc := mkScript false false 5 1 [] [] true [] [] [] [mkCall (F0 V0simple_transfer) [AC 1536; AC 7] 4] 0 [] [] in
+  o_rem (run_script sc 1000000) = 1000000 - 100 - BASE_ACTION_COST
+  /\ BASE_ACTION_COST < BASE_SIMPLE_TRANSFER_ACTION_COST.
+Proof. split; vm_compute; reflexivity. Qed.
+Print Assumptions simple_transfer_charges_base_action_cost.
